@@ -52,6 +52,13 @@ CHECKS = {
               "(Trace_Decoder), including unread-buffer accounting and value-bytes identity."),
         note="Bounded-exhaustive programs/schedules plus sampled long runs; PeekKind at the point where input ends or dies is left open; UnmarshalRead/UnmarshalDecode equivalence is decided in C03's check.",
         design_ref="5 (C05), 4.2"),
+    "C14": dict(
+        technique="TLA+ MergeTree on value trees; TLC validates that the driver's merged text is MergeTree(j1..jk) and the law chain == single unmarshal of the merged text",
+        text=("For random merge-capable types and chains of 2..4 fitting texts (nulls, missing and unknown members), the harness unmarshals the chain into one value and the JSON-level merge into "
+              "a zero value. TLC recomputes the merge from the meanings of the logged texts (objects united recursively, otherwise the later side) - a mismatch with the driver's text is a machinery "
+              "error - and requires that whenever the chain succeeds the merged text is accepted and yields an equal Go value."),
+        note="Sampled; Go value equality is a projection fact; raw values and []byte are outside the merge-capable universe.",
+        design_ref="5 (C14)"),
     "C16": dict(
         technique="TLC-checked invariant 'model positions == independent parse'; replay of TLC-enumerated programs comparing offset/depth/index/pointer after every call; relational error-position predicates validated by TLC on logged errors; RFC 6901 pointer laws model-checked and replayed",
         text=("After every decoder call the harness compares InputOffset, StackDepth, StackIndex and (scheduled) StackPointer with TLC's prediction; TLC proves on the model that "
@@ -95,6 +102,14 @@ CHECKS = {
               "specification, compares them with the library's output and requires them to be equal."),
         note="ECMA-262 layout, -0, ordering and string minimality are the spec's; the nearest float64 and its shortest digits for literals with > 15 significant digits come from the strconv projection (trusted).",
         design_ref="5 (C13), 4.4"),
+    "C08": dict(
+        technique="TLC decides from the byte automaton (4 option combinations) whether a logged text is ambiguous and validates the outcome of Unmarshal under each combination for random target types",
+        text=("Texts fitting random target types (struct, map, untyped, raw value, skipped unknown members, nested mixes) get one member repeated at a random depth - with the same or an escaped "
+              "spelling - or one string damaged by ill-formed UTF-8. TLC classifies each text with the automaton and requires: rejected under defaults by every target; AllowDuplicateNames admits "
+              "only duplicates and AllowInvalidUTF8 only ill-formed bytes; on unambiguous input the options change neither success nor the decoded value. Marshal-side clauses are decided by C02's "
+              "driver (colliding keys, invalid strings) and field-level collisions by C15."),
+        note="Sampled; later-wins/merge values under AllowDuplicateNames are checked for success and option-independence, not against a predicted value.",
+        design_ref="5 (C08)"),
     "C10": dict(
         technique="TLA+ digit-string number semantics (normal form, ECMA-262 layout, integer syntax and ranges, Token.Int/Uint classification) with TLC-checked layout inverse and range twin; exhaustive replay of integer literals near every bound; TLC trace validation of float formatting/parsing with projection-supplied rounding facts",
         text=("Numbers.tla decides, without arithmetic wider than a digit, whether a literal is an integer spelling, whether it fits int8..uint64 (refusing fractions, exponents and any minus "
